@@ -1,6 +1,14 @@
 """Merge /verif/findings/*.json into known_findings.json, skipping keys listed in FIXED (fixed by commits in /repo)."""
 import glob, json, subprocess, sys
 FIXED = {  # key -> (property, commit subject prefix)
+  "C05:make_data:default-njmax_nnz-omits-slide-hinge-limits": ("C05", "fix: default njmax_nnz counts limited slide"),
+  "C22:dense-vs-sparse:default-njmax_nnz-drops-rows": ("C22", "fix: default njmax_nnz counts limited slide"),
+  "C05:_efc_row:mixed-solref": ("C05", "fix: constraint rows follow MuJoCo for mixed solref"),
+  "C05:_efc_row:solimp-width-below-minval": ("C05", "fix: constraint rows follow MuJoCo for mixed solref"),
+  "C05:_efc_row:solimp-dmin-above-dmax": ("C05", "fix: constraint rows follow MuJoCo for mixed solref"),
+  "C05:_efc_contact_update:elliptic-friction-row-margin": ("C05", "fix: elliptic friction rows carry zero margin"),
+  "C05:_equality_connect_weld:both-bodies-without-dofs": ("C05", "fix: connect/weld between two static bodies"),
+  "C16:jtdaj-block-exceeds-allocation:_equality_flexstrain": ("C16", "fix: flex strain equality registers one-row"),
   "C01:zero-quaternion-normalize": ("C01", "fix: kinematics normalises a zero quaternion"),
   "C02:passive._fluid_force:ellipsoid-force-moment-dropped": ("C02", "fix: ellipsoid fluid force"),
   "C02:passive._spring_damper_dof_passive:joint-damping-read-from-first-dof": ("C02", "fix: joint damping is read per dof"),
